@@ -3,6 +3,7 @@ use crate::ev::Tier;
 use std::path::PathBuf;
 
 pub mod c01;
+pub mod c02b;
 pub mod c04;
 pub mod c05;
 pub mod c07;
